@@ -67,22 +67,32 @@ def main(argv):
             need += list(getattr(mod, "NEED_THOROUGH", ()))
         fdir = F.get_facts(need=tuple(need))
         ctx = Ctx(pid, tier, fdir)
-        mod.run(ctx)
-        if tier == "thorough" and hasattr(mod, "run_thorough"):
-            mod.run_thorough(ctx)
-        floor_error = None
+    except F.CheckerError as e:
+        # the facts could not be produced (engine / toolchain / build failure): nothing was analysed
+        print("CHECKER-ERROR property=%s %s" % (pid, e))
+        return 2
+    except Exception:
+        traceback.print_exc()
+        print("CHECKER-ERROR property=%s internal error while producing the facts" % pid)
+        return 2
+    try:
+        # An anchor or a shape that a rule needs and cannot find (after the role-based look-ups of lib/) means the code was
+        # restructured beyond what the rule models. That is not evidence of a violation: the rules evaluated so far stand, the rest
+        # of the property is UNDECIDED on this tree, and the check says so instead of failing.
+        try:
+            mod.run(ctx)
+            if tier == "thorough" and hasattr(mod, "run_thorough"):
+                mod.run_thorough(ctx)
+        except F.CheckerError as e:
+            ctx.rule(pid + ".anchors", "every function, match and table the rules of this property are anchored in was located", floor=0)
+            ctx.inst(pid + ".anchors", "analysis-incomplete", None, "a rule could not locate what it is anchored in: %s; the remaining rules of this property were not evaluated on this tree" % e, None)
+            print("UNDECIDED property=%s %s (the code was restructured beyond what the rules model; rules evaluated before this point stand)" % (pid, e))
         try:
             ctx.check_floors()
         except F.CheckerError as e:
-            # a violation that was found is reported even when a floor is missed (the missing instances are usually its consequence)
-            if any(i["ok"] is False for i in ctx.instances):
-                floor_error = str(e)
-                print("note: %s" % e)
-            else:
-                raise
-    except F.CheckerError as e:
-        print("CHECKER-ERROR property=%s %s" % (pid, e))
-        return 2
+            ctx.rule(pid + ".anchors", "every function, match and table the rules of this property are anchored in was located", floor=0)
+            ctx.inst(pid + ".anchors", "instance-floor", None, str(e), None)
+            print("UNDECIDED property=%s %s" % (pid, e))
     except Exception:
         traceback.print_exc()
         print("CHECKER-ERROR property=%s internal error in rule module" % pid)
